@@ -58,8 +58,8 @@ META = {
                   'untouched; an unknown name rejects the command with nothing done; C13_forgotten_not_skipped -- a '
                   'forgotten task with a file dependency is not reported up-to-date in the next run, for every order of '
                   'hand-over; C13_ignore_cmd / C13_ignore_run / C13_ignore_persists / C13_ignore -- exactly the named '
-                  'tasks and their sub-tasks are marked, the mark survives every history of edits, runs, ignores and '
-                  'forgets of other tasks, and in every later run every processed task that is marked or reaches a marked '
+                  'tasks and their sub-tasks are marked, the mark survives every history of edits, runs, reset-deps, ignores and '
+                  'forgets of other tasks (no change of the configured checker), and in every later run every processed task that is marked or reaches a marked '
                   'task over task_dep edges (declared or implicit) is reported ignored while tasks with such a setup-task '
                   'are not executed; C13_resetdep -- target list, no other record changed, nothing recorded with a '
                   'missing file_dep, otherwise every dependency recorded as the present file, values and result kept and '
@@ -69,8 +69,9 @@ META = {
                   'reports, reset-dep lines and the logical DB after every op are diffed against the model; the monitor '
                   'evaluates the property statement on DB dumps and reporter streams against specification sets '
                   'computed by the Lean driver from the documented semantics (never from a DB).',
-    'level_note': 'C13_forget carries the decidable hypothesis `forgetTarget != .fuel` (the closure iteration of the model '
-                  'has an explicit out-of-fuel result; evaluated on every generated case, never seen).  C13_ignore_run '
+    'level_note': 'C13_forget assumes a well-formed task set (declared edges name tasks: the loader enforces it, C18; '
+                  'decidable, evaluated on every generated case); the model\'s closure iteration provably never runs '
+                  'out of fuel (C13_forget_fuel_suffices).  C13_ignore_run '
                   'assumes a duplicate-free hand-over order in which no task is processed before a dependency it needs '
                   'has a report (`bad = false`; C01 is the theorem about the dispatcher, the driver evaluates the flag on '
                   'every observed run).  C13_ignore_persists excludes reset-dep and checker changes from the histories: '
@@ -604,6 +605,10 @@ def monitor(case, obs, steps, r):
             if post != pre:
                 viol(i, '%s-unknown-name' % kind, 'the command was rejected but the DB changed')
             continue
+        if sp.get('closed') is False:
+            r['div'].append({'op': i, 'what': 'specification closure of the monitor is not a fixpoint (broken check)',
+                             'impl': None, 'model': sp})
+            return
         if kind == 'forget':
             spec = sp['spec']
             if o['code'] != 0:
